@@ -269,6 +269,12 @@ def autocorrect_paths(prog):
         b0 = prog.raw_body(k)
         if any(callee_name(t).endswith("::get") and "HashMap" in callee_name(t) and self_path(b0.expr_operand(t["args"][0])) == (R["user_autocorrect"],) for (_, t) in b0.calls()):
             cands.append((len(b0.blocks), k))
+            continue
+        # the map wrapped in a helper type with a look-up method of its own: seen with the helper's plumbing spliced in
+        b1 = prog.body(k)
+        if b1 is not b0 and any(callee_name(t).endswith("::get") and "HashMap" in callee_name(t) and self_path(b1.expr_operand(t["args"][0])) == (R["user_autocorrect"],)
+                                for (_, t) in b1.calls()):
+            cands.append((len(b0.blocks), k))
     for _, k in sorted(cands)[:1]:
         b = _roles.ib_paths(prog, k)
         try:
